@@ -1,3 +1,115 @@
-import RlibModel.Model.Common
-/-! Line-protocol driver for engine `f80` (stub: to be written by the engine's author). -/
-def main : IO Unit := pure ()
+import RlibModel.Model.F80
+/-! Line-protocol driver for engine `f80` (property C18).  See `harness/e_f80/src/main.rs` for the case syntax. -/
+open Rlib Rlib.F80
+
+/-- an operand token: 16 hex digits = f64 pattern (converted with `ofF64`), 20 hex digits = the ten bytes -/
+structure Opd where
+  v : F80
+  /-- the f64 pattern when the operand was given as one -/
+  src64 : Option F64
+  /-- canonical encoding (something the public API can produce) -/
+  canonical : Bool
+
+def canonicalEnc (x : F80) : Bool :=
+  if x.exp = 0 then x.sig < two63 else two63 ≤ x.sig
+
+def operand? (tok : String) : Option Opd :=
+  match parseHex? tok with
+  | none => none
+  | some n =>
+    if tok.length = 16 then
+      let x := F64.ofNat n
+      some ⟨ofF64 x, some x, true⟩
+    else if tok.length = 20 then
+      let x := F80.ofNat n
+      some ⟨x, none, canonicalEnc x⟩
+    else none
+
+def show80 (x : F80) : String := if isNaN x then "nan" else toHex x.toNat 20
+def show64 (x : F64) : String := if isNaN64 x then "nan" else toHex x.toNat 16
+def canon80 (x : F80) : String :=
+  match canonBits x with
+  | none => "nan"
+  | some 0 => "zero"
+  | some n => toHex n 20
+def b01 (b : Bool) : String := if b then "1" else "0"
+def showPc : Option Ordering → String
+  | none => "none"
+  | some .lt => "less"
+  | some .eq => "equal"
+  | some .gt => "greater"
+
+def arith (op : String) (a b : F80) : Option F80 :=
+  match op with
+  | "+" => some (add a b)
+  | "-" => some (sub a b)
+  | "*" => some (mul a b)
+  | "/" => some (div a b)
+  | _ => none
+
+/-- fold a chain `op Y op Z ...` from `acc`, collecting every intermediate -/
+def chain (acc : F80) : List String → Option (List String)
+  | [] => some []
+  | op :: y :: rest =>
+    match operand? y with
+    | none => none
+    | some o =>
+      match arith op acc o.v with
+      | none => none
+      | some r =>
+        match chain r rest with
+        | none => none
+        | some outs => some (show80 r :: outs)
+  | _ => none
+
+def handle (line : String) : String :=
+  match tokens line with
+  | ["const"] =>
+    let s := s!"zero={show80 zero} one={show80 one} default={show80 zero}"
+    answer s "zero=00000000000000000000 one=3fff8000000000000000 default=00000000000000000000"
+  | ["ar", x, y] =>
+    match operand? x, operand? y with
+    | some a, some b =>
+      let s := s!"add={show80 (add a.v b.v)} sub={show80 (sub a.v b.v)} mul={show80 (mul a.v b.v)} div={show80 (div a.v b.v)} asg=same"
+      -- the arithmetic model *is* the specification "exact result, rounded once"; operands in encodings that
+      -- no operation produces are outside the property's domain
+      answer s (if a.canonical && b.canonical then s else "any")
+    | _, _ => badLine line
+  | ["cmp", x, y] =>
+    match operand? x, operand? y with
+    | some a, some b =>
+      let (a, b) := (a.v, b.v)
+      let anyNaN := isNaN a || isNaN b
+      let rel := s!"lt={b01 (lt a b)} gt={b01 (gt a b)} le={b01 (le a b)} ge={b01 (ge a b)} eq={b01 (beq a b)} ne={b01 (Rlib.F80.bne a b)} pc={showPc (partialCmp a b)}"
+      let srel := s!"lt={b01 (specLt a b)} gt={b01 (specGt a b)} le={b01 (specLe a b)} ge={b01 (specGe a b)} eq={b01 (specEq a b)} ne={b01 (!specEq a b)} pc={showPc (specPcmp a b)}"
+      let raw := s!"{rel} min={show80 (Rlib.F80.min a b)} max={show80 (Rlib.F80.max a b)}"
+      let view := if anyNaN then s!"{rel} min=* max=*" else s!"{rel} min={canon80 (Rlib.F80.min a b)} max={canon80 (Rlib.F80.max a b)}"
+      let spec := if anyNaN then s!"{srel} min=* max=*" else s!"{srel} min={canon80 (specMin a b)} max={canon80 (specMax a b)}"
+      answer3 raw view spec
+    | _, _ => badLine line
+  | ["un", x] =>
+    match operand? x with
+    | some a =>
+      let v := a.v
+      let raw := s!"val={show80 v} neg={show80 (neg v)} abs={show80 (abs v)} f64={show64 (toF64 v)}"
+      let view := s!"val={show80 v} neg={show80 (neg v)} abs={canon80 (abs v)} f64={show64 (toF64 v)}"
+      -- specification: negation flips the sign, abs is the magnitude (as a value), f80 -> f64 is the correctly
+      -- rounded value, and for an operand that came from an f64 it is that f64 again
+      let s64 := match a.src64 with
+        | some x => show64 x
+        | none => show64 (toF64 v)
+      let spec := s!"val={show80 v} neg={show80 { v with sign := !v.sign }} abs={canon80 (specAbs v)} f64={s64}"
+      answer3 raw view (if a.canonical then spec else "any")
+    | none => badLine line
+  | "ch" :: x :: rest =>
+    match operand? x with
+    | some a =>
+      match chain a.v rest with
+      | some outs =>
+        let s := " ".intercalate outs
+        answer s (if a.canonical then s else "any")
+      | none => badLine line
+    | none => badLine line
+  | _ => badLine line
+
+def main : IO Unit := driverMain handle
